@@ -174,6 +174,89 @@ def _check_main(run, P):
     run.do(_flat_and, run, P)
     run.do(_kwpair, run, P)
     run.do(_append_only, run, P)
+    run.do(carry, run, P, "C07.carry")
+
+
+def carry(run, P, rule):
+    """A statement built from scratch to stand for the rewritten one (it takes
+    over its id) accounts for every component of the original."""
+    if rule not in run.rule_docs:
+        run.rule(rule, "a statement constructed under the id of the statement it replaces "
+                 "accounts for every component of the original (each is passed on, or "
+                 "tested on the path); other constructions get fresh ids", minimum=5)
+    from . import stmtmodel as sm
+    from .util import path_conditions
+    from .c09 import _stmt_of
+    classes = {K.name: K for K in sm.statement_classes(P)}
+    m = P.module(MOD)
+    n = 0
+    for f in m.functions.values():
+        params = set(f.params)
+        for x in ast.walk(f.node):
+            if not (isinstance(x, ast.Call) and dotted(x.func) in classes):
+                continue
+            idkw = next((k.value for k in x.keywords if k.arg == "id"), None)
+            src = None
+            if isinstance(idkw, ast.Attribute) and idkw.attr == "id" and isinstance(idkw.value, ast.Name):
+                src = idkw.value.id
+            n += 1
+            if src is None:
+                run.ob(rule, f, x, True,
+                       construct=f"{f.qualname}: {dotted(x.func)}(...) is a new statement "
+                                 f"(id {norm(idkw, 30) if idkw is not None else 'by default'})",
+                       why="not a stand-in for the rewritten statement")
+                continue
+            st = _stmt_of(f.node, x)
+            conds = path_conditions(f.node, st) if st is not None else set()
+            k1 = None
+            for t, v in conds:
+                for cname in classes:
+                    if v and t == f"isinstance({src}, {cname})":
+                        k1 = classes[cname]
+            if k1 is None:
+                # `if not isinstance(stmt, K): return` earlier in the function
+                for t, v in conds:
+                    for cname in classes:
+                        if t == f"isinstance({src}, {cname})" and v:
+                            k1 = classes[cname]
+            if k1 is None:
+                raise AnalysisError(f"{f.qualname}: class of '{src}' at {norm(x, 40)} not known")
+            mentioned = {y.attr for y in ast.walk(x) if isinstance(y, ast.Attribute)
+                         and isinstance(y.value, ast.Name) and y.value.id == src}
+            for t, v in conds:
+                for y in ast.walk(ast.parse(t, mode="eval")):
+                    if isinstance(y, ast.Attribute) and isinstance(y.value, ast.Name) and y.value.id == src:
+                        mentioned.add(y.attr)
+            comps = {p_.split(".")[0].split("[")[0].split("{")[0] for p_ in sm.mapped(P, k1)} - {
+                "condition", "id", "depends_on", ""}
+            missing = []
+            for c in sorted(comps):
+                views = [name for name in dir_props(P, k1)
+                         if (sm.property_paths(P, k1, name) or set())
+                         and all(q.split(".")[0].split("[")[0] == c or q == ""
+                                 for q in sm.property_paths(P, k1, name) if q)]
+                views = [v_ for v_ in views if any(q for q in sm.property_paths(P, k1, v_))]
+                ok = c in mentioned or (views and all(v_ in mentioned for v_ in views))
+                if not ok:
+                    missing.append(c + (f" (seen only through {sorted(set(views) & mentioned)})"
+                                        if set(views) & mentioned else ""))
+            run.ob(rule, f, x, not missing,
+                   construct=f"{f.qualname}: {dotted(x.func)}(..., id={src}.id) stands for a "
+                             f"{k1.name}: components not accounted for: {missing or 'none'}",
+                   why="what is neither passed on nor tested is dropped: 'w[i] <- f(i)' rebuilt "
+                       "from the assignee name alone assigns the whole array")
+    if n < 5:
+        raise AnalysisError(f"{rule}: only {n} statement constructions found in the passes")
+
+
+def dir_props(P, K):
+    from . import stmtmodel as sm
+    out = []
+    for c in P.mro(K):
+        for name, f in c.methods.items():
+            if sm.is_property(f) and name not in out:
+                out.append(name)
+    return out
 
 
 def _seed(run, P):
